@@ -1,6 +1,6 @@
 SPECIFICATION Spec
 INVARIANTS TypeOK CleanedStaysClean
-PROPERTIES CleanRemovesData CleanNothingElse ModeOnlyMode NoOpWhenSame Records NoCommandCreatesData AfterModeCmdItReads CleanIdempotent EnvShowsTheFile
+PROPERTIES CleanRemovesData CleanNothingElse CleanKeepsNonEmptyDirs ModeOnlyMode NoOpWhenSame Records NoCommandCreatesData AfterModeCmdItReads CleanIdempotent EnvShowsTheFile
 CHECK_DEADLOCK FALSE
 CONSTANTS
   Trees <- MCTrees
